@@ -147,10 +147,65 @@ Definition meth_cmp_ptr (mag : bool) := if mag then second_mag_ptr else first_cm
 (* ---------- Equal with method dispatch ---------- *)
 Inductive mstrat := MPlain (s : strat) | MMeth | MMethPtr | MMethMag | MMethPtrMag.
 
+(* canEqual of plugin/equal since the fix "a type with its own Equal method is not compared with ==":
+   a type that is, or contains by value (array element, struct field), a named type with an Equal
+   method is not ==-comparable for the generator, so that the method answers at that component.
+   On method-free types it is [can_equal]. *)
+Fixpoint has_meth_val (t : ty) : bool :=
+  match t with
+  | TB _ => false
+  | TN id _ u => match meth_kind id with Some _ => true | None => has_meth_val u end
+  | TRef id => match meth_kind id with Some _ => true | None => false end
+  | TP _ | TSl _ | TM _ _ => false
+  | TAr _ t' => has_meth_val t'
+  | TSt fs => (fix go (l : list (bool * ty)) : bool :=
+                 match l with [] => false | f :: l' => has_meth_val (snd f) || go l' end)%bool fs
+  end.
+Definition can_equal_m (t : ty) : bool := (can_equal t && negb (has_meth_val t))%bool.
+(* the pinned behaviour (before the fix): == whenever Go allows it, methods or not *)
+Definition can_equal_old (t : ty) : bool := can_equal t.
+
+(* [Equal.strategy] with the comparability test as a parameter *)
+Definition strategy_g (ce : ty -> bool) (e : tenv) (m : mode) (t : ty) : strat :=
+  match resolve e t with
+  | None => SStuck
+  | Some r =>
+      let e' := r_env r in
+      match m with
+      | Top =>
+          match r_node r with
+          | TB _ => SEqEq
+          | TP rt => strat_ptr e' rt
+          | TSt fs => if is_named r then SFields e' fs
+                      else if ce t then SEqEq else SFields e' fs
+          | TSl et => SSlice e' et
+          | TAr _ et => SArray e' et
+          | TM _ vt => SMap e' vt
+          | _ => SStuck
+          end
+      | Fld =>
+          if ce t then SEqEq else
+          match r_node r with
+          | TP rt =>
+              match resolve e' rt with
+              | None => SStuck
+              | Some rr => if is_named rr then strat_ptr e' rt else SPtrInline e' rt
+              end
+          | TAr _ et => SArray e' et
+          | TSl et => if is_byte et then SBytes else SSlice e' et
+          | TM _ vt => SMap e' vt
+          | TSt fs => SFields e' fs
+          | _ => SStuck
+          end
+      end
+  end.
+Lemma strategy_g_can_equal e m t : strategy_g can_equal e m t = strategy e m t.
+Proof. reflexivity. Qed.
+
 (* plugin/equal field: the method test comes first; genStatement (Top) reaches it for a named
    struct through field(&this, &that, *T); a top-level pointer is compared field by field (that
    is what the user's method itself calls) *)
-Definition strategy_m (e : tenv) (m : mode) (t : ty) : mstrat :=
+Definition strategy_mg (ce : ty -> bool) (e : tenv) (m : mode) (t : ty) : mstrat :=
   match resolve e t with
   | None => MPlain SStuck
   | Some r =>
@@ -162,16 +217,16 @@ Definition strategy_m (e : tenv) (m : mode) (t : ty) : mstrat :=
           | Some rr => match r_meth rr with
                        | Some true => if r_mag rr then MMethPtrMag else MMethPtr
                        | Some false => MPlain (SPtrInline (r_env r) rt)   (* falls through to the dereference *)
-                       | None => MPlain (strategy e m t)
+                       | None => MPlain (strategy_g ce e m t)
                        end
           | None => MPlain SStuck
           end
-      | _, _, _ => MPlain (strategy e m t)
+      | _, _, _ => MPlain (strategy_g ce e m t)
       end
   end.
 
-Fixpoint eqm_m (e : tenv) (m : mode) (t : ty) (x y : val) {struct x} : res bool :=
-  match strategy_m e m t with
+Fixpoint eqm_mg (ce : ty -> bool) (e : tenv) (m : mode) (t : ty) (x y : val) {struct x} : res bool :=
+  match strategy_mg ce e m t with
   | MMeth => first_eq x y
   | MMethPtr => first_eq_ptr x y
   | MMethMag => second_eq x y
@@ -182,21 +237,21 @@ Fixpoint eqm_m (e : tenv) (m : mode) (t : ty) (x y : val) {struct x} : res bool 
   | SPtrNoStruct e' rt =>
       match x, y with
       | VNilP, VNilP => Ok true
-      | VPtr _ x', VPtr _ y' => eqm_m e' Top rt x' y'
+      | VPtr _ x', VPtr _ y' => eqm_mg ce e' Top rt x' y'
       | VNilP, VPtr _ _ | VPtr _ _, VNilP => Ok false
       | _, _ => Stuck
       end
   | SPtrStruct e' fs =>
       match x, y with
       | VNilP, VNilP => Ok true
-      | VPtr _ (VSt xs), VPtr _ (VSt ys) => fields_r (fun ft a b => eqm_m e' Fld ft a b) fs xs ys
+      | VPtr _ (VSt xs), VPtr _ (VSt ys) => fields_r (fun ft a b => eqm_mg ce e' Fld ft a b) fs xs ys
       | VNilP, VPtr _ _ | VPtr _ _, VNilP => Ok false
       | _, _ => Stuck
       end
   | SPtrInline e' rt =>
       match x, y with
       | VNilP, VNilP => Ok true
-      | VPtr _ x', VPtr _ y' => eqm_m e' Fld rt x' y'
+      | VPtr _ x', VPtr _ y' => eqm_mg ce e' Fld rt x' y'
       | VNilP, VPtr _ _ | VPtr _ _, VNilP => Ok false
       | _, _ => Stuck
       end
@@ -207,12 +262,12 @@ Fixpoint eqm_m (e : tenv) (m : mode) (t : ty) (x y : val) {struct x} : res bool 
       | VNilS, VSl _ _ _ | VSl _ _ _, VNilS => Ok false
       | VSl _ xs _, VSl _ ys _ =>
           if negb (Nat.eqb (List.length xs) (List.length ys)) then Ok false
-          else elems_r (fun a b => eqm_m e' Fld et a b) xs ys
+          else elems_r (fun a b => eqm_mg ce e' Fld et a b) xs ys
       | _, _ => Stuck
       end
   | SArray e' et =>
       match x, y with
-      | VArr xs, VArr ys => elems_r (fun a b => eqm_m e' Fld et a b) xs ys
+      | VArr xs, VArr ys => elems_r (fun a b => eqm_mg ce e' Fld et a b) xs ys
       | _, _ => Stuck
       end
   | SMap e' vt =>
@@ -221,18 +276,24 @@ Fixpoint eqm_m (e : tenv) (m : mode) (t : ty) (x y : val) {struct x} : res bool 
       | VNilM, VMap _ _ | VMap _ _, VNilM => Ok false
       | VMap _ xm, VMap _ ym =>
           if negb (Nat.eqb (List.length xm) (List.length ym)) then Ok false
-          else entries_r (fun a b => eqm_m e' Fld vt a b) xm ym
+          else entries_r (fun a b => eqm_mg ce e' Fld vt a b) xm ym
       | _, _ => Stuck
       end
   | SFields e' fs =>
       match x, y with
-      | VSt xs, VSt ys => fields_r (fun ft a b => eqm_m e' Fld ft a b) fs xs ys
+      | VSt xs, VSt ys => fields_r (fun ft a b => eqm_mg ce e' Fld ft a b) fs xs ys
       | _, _ => Stuck
       end
   | SUnsup => Unsup
   | SStuck => Stuck
   end
   end.
+
+(* the current generator, and the pinned one (== wherever Go allows it) *)
+Definition strategy_m := strategy_mg can_equal_m.
+Definition eqm_m := eqm_mg can_equal_m.
+Definition eqm_m_old := eqm_mg can_equal_old.
+
 
 (* ---------- Compare with method dispatch (plugin/compare field) ---------- *)
 (* [entries_c] of Go/Compare.v with the comparison of two different keys as a closure too *)
